@@ -161,7 +161,9 @@ class Printer(PrinterBase):
     def make_constant(self, like, value):
         typ = self.get_type(like)
         s = str(value)
-        if s == "inf":
+        if s in {"True", "False"}:
+            s = s.lower()
+        elif s == "inf":
             s = f"std::numeric_limits<{typ}>::infinity()"
         elif s == "-inf":
             s = f"(-std::numeric_limits<{typ}>::infinity())"
